@@ -179,9 +179,8 @@ def run(cx):
             and is_param(no.of_operand(uc[0].args[2]), "backoff_step") and is_param(no.of_operand(uc[0].args[3]), "max_backoff")
         ob.require(ok, "new/zero-then-update", f"DialBackoffState::new = update on {show(st)}", nb.path)
         # drain closure
-        rt = hc.calls_to("HashMap::retain")
+        rt = [c for c in hc.calls_to("HashMap::retain") if mentions_field(ho.of_operand(c.args[0]), "pending_dials")]
         ob.floor(rt, 1, "pending_dials.retain", exact=True)
-        ob.require(mentions_field(ho.of_operand(rt[0].args[0]), "pending_dials"), "drain/map", "retain not on pending_dials", hc.path)
         cl = ho.of_operand(rt[0].args[1])
         d = kids.get(cl[2]) if cl[0] == "agg" else None
         if d is None:
